@@ -9,21 +9,23 @@
    Cksum (first four bytes of sha256(sha256(.))) is UNINTERPRETED here: an input carries the
    four checksum bytes explicitly; for an "enc" input they are, by definition of the input,
    the value of Cksum at that point; for a "dec" input the model returns a *candidate*
-   <<"cand", row, payload, body, carried>> and the string is valid iff Cksum(body) = carried,
+   <<"cand", row, payload, body, carried>> and the text is valid iff Cksum(body) = carried,
    which the replay harness interprets with hashlib.
 
-   The machine performs the conversions digit by digit like the base58 library does (one
-   action per division by 58 / per multiply-add), the operators B58 / UnB58 state them
-   declaratively; the invariants say that the two agree, that base-58 is invertible
-   including the leading-zero-byte rule, that every encoding of a consistent row has the
-   documented shape (the end points bound everything in between), and that the decoder
-   (row found by length and human prefix, then binary prefix and length checked) accepts
-   exactly the encodings. *)
+   The machine converts like the base58 library does, by repeated division (encode) and
+   multiply-add (decode); one action handles three base-58 digits (division by 58^3), which
+   keeps every intermediate below 2^31.  B58 / UnB58 are the digit-by-digit definitions,
+   B58F / UnB58F the same conversions three digits at a time in closed form.  The invariants
+   say that machine and definitions agree, that base 58 with the leading-zero-byte rule is
+   invertible, that every encoding of a consistent row has the documented shape (the end
+   points bound everything in between), and that the decoder (row found by text length and
+   human prefix, then byte length and binary prefix checked) accepts exactly the encodings. *)
 EXTENDS Integers, Sequences, FiniteSets, TLC, BigInt
 
 CONSTANTS Rows,      \* the kind table
           Classes,   \* abstract payload/checksum classes explored per row (Leg A)
-          Cases      \* concrete inputs (Leg B): <<"enc", hp, payload, ck>> | <<"dec", text>>
+          Cases,     \* concrete inputs (Leg B): <<"enc", hp, payload, ck>> | <<"dec", text>>
+          Deep       \* TRUE: also compare with the digit-by-digit definitions on every input
 
 HP(i) == Rows[i][1]
 ELen(i) == Rows[i][2]
@@ -45,38 +47,65 @@ Alphabet == [i \in 1..9 |-> 48 + i] \o [i \in 1..8 |-> 64 + i] \o [i \in 1..5 |-
             \o [i \in 1..11 |-> 79 + i] \o [i \in 1..11 |-> 96 + i] \o [i \in 1..14 |-> 108 + i]
 One == Alphabet[1]
 DigitOf(c) == IF \E i \in 1..58 : Alphabet[i] = c THEN (CHOOSE i \in 1..58 : Alphabet[i] = c) - 1 ELSE -1
-
+AllDigits(s) == \A j \in DOMAIN s : DigitOf(s[j]) >= 0
+Chars(ds) == [i \in 1..Len(ds) |-> Alphabet[ds[i] + 1]]
 BytesToMag(b) == MTrim(RevS(b))
+
+\* the definition, digit by digit
 RECURSIVE Digits58(_)              \* magnitude -> base-58 digits, most significant first
 Digits58(m) == IF m = <<>> THEN <<>>
                ELSE LET qr == MDivSmall(m, 58)
                         r == Digits58(qr[1])
                     IN Append(r, qr[2])
 \* leading zero BYTES become leading '1' characters, the rest is the number in base 58
-B58(b) == LET ds == Digits58(BytesToMag(b)) IN
-          Fill(LeadCount(b, 0), One) \o [i \in 1..Len(ds) |-> Alphabet[ds[i] + 1]]
+B58(b) == Fill(LeadCount(b, 0), One) \o Chars(Digits58(BytesToMag(b)))
 RECURSIVE Num58(_)                 \* digits, most significant first -> magnitude (Horner)
 Num58(ds) == IF ds = <<>> THEN <<>>
              ELSE LET r == Num58(SubSeq(ds, 1, Len(ds) - 1))
                   IN MAdd(MMulSmall(r, 58), MFromNat(ds[Len(ds)]))
-UnB58(s) == IF \E k \in DOMAIN s : DigitOf(s[k]) < 0 THEN <<FALSE, <<>>>>
-            ELSE LET z == LeadCount(s, One)
-                     ds == [i \in 1..Len(s) - z |-> DigitOf(s[z + i])]
-                 IN <<TRUE, Fill(z, 0) \o RevS(Num58(ds))>>
+UnB58(s) == IF ~AllDigits(s) THEN <<FALSE, <<>>>>
+            ELSE LET lz == LeadCount(s, One)
+                     ds == [i \in 1..Len(s) - lz |-> DigitOf(s[lz + i])]
+                 IN <<TRUE, Fill(lz, 0) \o RevS(Num58(ds))>>
+
+\* the same, three digits per big-number operation
+K3 == 58 * 58 * 58
+Three(r) == <<r \div (58 * 58), (r \div 58) % 58, r % 58>>
+Val(ds) == IF Len(ds) = 1 THEN ds[1] ELSE IF Len(ds) = 2 THEN ds[1] * 58 + ds[2] ELSE (ds[1] * 58 + ds[2]) * 58 + ds[3]
+Pow58(n) == IF n = 1 THEN 58 ELSE IF n = 2 THEN 58 * 58 ELSE K3
+RECURSIVE Digits58F(_)
+Digits58F(m) == IF m = <<>> THEN <<>>
+                ELSE LET qr == MDivSmall(m, K3)
+                         r == Digits58F(qr[1])
+                     IN r \o Three(qr[2])
+B58F(b) == LET ds == Digits58F(BytesToMag(b)) IN
+           Fill(LeadCount(b, 0), One) \o Chars(DropS(ds, LeadCount(ds, 0)))
+RECURSIVE Num58F(_)                \* chunks of three from the left, the last one may be shorter
+Num58F(ds) == IF ds = <<>> THEN <<>>
+              ELSE LET n == IF Len(ds) % 3 = 0 THEN 3 ELSE Len(ds) % 3
+                       r == Num58F(SubSeq(ds, 1, Len(ds) - n))
+                   IN MAdd(MMulSmall(r, Pow58(n)), MFromNat(Val(SubSeq(ds, Len(ds) - n + 1, Len(ds)))))
+UnB58F(s) == IF ~AllDigits(s) THEN <<FALSE, <<>>>>
+             ELSE LET lz == LeadCount(s, One)
+                      ds == [i \in 1..Len(s) - lz |-> DigitOf(s[lz + i])]
+                  IN <<TRUE, Fill(lz, 0) \o RevS(Num58F(ds))>>
 
 \* ---------------------------------------------------------------- the table
-\* (i) end points: every payload and every checksum lies between them, encoding is monotone
-\* in the integer value for a fixed byte length and a fixed number of leading zero bytes.
-Lo(i) == B58(BP(i) \o Fill(PLen(i) + 4, 0))
-Hi(i) == B58(BP(i) \o Fill(PLen(i) + 4, 255))
-RowFacts == [i \in RowIds |-> <<Len(Lo(i)), Len(Hi(i)), IsPrefix(HP(i), Lo(i)), IsPrefix(HP(i), Hi(i)),
-                                 \E k \in DOMAIN BP(i) : BP(i)[k] # 0>>]
+\* (i) end points: every payload and every checksum lies between them; for a fixed byte length
+\* and a fixed number of leading zero bytes the text is monotone in the integer value.
+Lo(i) == B58F(BP(i) \o Fill(PLen(i) + 4, 0))
+Hi(i) == B58F(BP(i) \o Fill(PLen(i) + 4, 255))
+RowFact(i) == <<Len(Lo(i)), Len(Hi(i)), IsPrefix(HP(i), Lo(i)), IsPrefix(HP(i), Hi(i)),
+                \E j \in DOMAIN BP(i) : BP(i)[j] # 0>>
+RECURSIVE FactsUpTo(_)             \* an explicit tuple: TLC evaluates it once and keeps it
+FactsUpTo(n) == IF n = 0 THEN <<>> ELSE LET r == FactsUpTo(n - 1) IN Append(r, RowFact(n))
+RowFacts == FactsUpTo(Len(Rows))
 RowOK(i) == RowFacts[i] = <<ELen(i), ELen(i), TRUE, TRUE, TRUE>>
-\* (ii) two rows that could match the same string / the same (prefix, payload) request
+\* (ii) two rows that could match the same text / the same (prefix, payload length) request
 Overlap(i, j) == i # j /\ ELen(i) = ELen(j) /\ (IsPrefix(HP(i), HP(j)) \/ IsPrefix(HP(j), HP(i)))
 Overlaps == {<<i, j>> \in RowIds \X RowIds : i < j /\ Overlap(i, j)}
 EncDups == {<<i, j>> \in RowIds \X RowIds : i < j /\ HP(i) = HP(j) /\ PLen(i) = PLen(j)}
-BadChars == {i \in RowIds : \E k \in DOMAIN HP(i) : DigitOf(HP(i)[k]) < 0}
+BadChars == {i \in RowIds : ~AllDigits(HP(i))}
 TableOK == Overlaps = {} /\ EncDups = {}
 
 \* ---------------------------------------------------------------- inputs
@@ -85,7 +114,7 @@ ClassPayload(c, n) ==
     [] c = "zero-ff" -> Fill(n, 0)   [] c = "ones-00" -> Fill(n, 255)
     [] c = "low" -> Fill(n - 1, 0) \o <<1>>
     [] c = "high" -> <<128>> \o Fill(n - 1, 0)
-    [] c = "mid" -> [k \in 1..n |-> (37 * k + 11) % 256]
+    [] c = "mid" -> [j \in 1..n |-> (37 * j + 11) % 256]
 ClassCk(c) ==
   CASE c = "zero" -> Fill(4, 0)      [] c = "ones" -> Fill(4, 255)
     [] c = "zero-ff" -> Fill(4, 255) [] c = "ones-00" -> Fill(4, 0)
@@ -106,6 +135,7 @@ Init == /\ \/ cid = 0 /\ inp \in {AbsInput(i, c) : i \in RowIds, c \in Classes}
 Finish(r) == res' = r /\ pc' = "done"
 
 \* ---- encode: base58_encode(payload, human prefix) ----
+\* during "ediv" str holds digit values (most significant first), afterwards text
 EncLookup == /\ pc = "start" /\ inp[1] = "enc"
              /\ LET M == {i \in RowIds : HP(i) = inp[2] /\ PLen(i) = Len(inp[3])} IN
                 IF M = {}
@@ -117,9 +147,10 @@ EncLookup == /\ pc = "start" /\ inp[1] = "enc"
              /\ UNCHANGED <<cid, inp, drow, k, str>>
 EncDiv == /\ pc = "ediv"
           /\ IF num = <<>>
-             THEN str' = Fill(z, One) \o str /\ pc' = "encoded" /\ UNCHANGED num
-             ELSE LET qr == MDivSmall(num, 58) IN
-                  num' = qr[1] /\ str' = <<Alphabet[qr[2] + 1]>> \o str /\ UNCHANGED pc
+             THEN /\ str' = Fill(z, One) \o Chars(DropS(str, LeadCount(str, 0)))
+                  /\ pc' = "encoded" /\ UNCHANGED num
+             ELSE LET qr == MDivSmall(num, K3) IN
+                  num' = qr[1] /\ str' = Three(qr[2]) \o str /\ UNCHANGED pc
           /\ UNCHANGED <<cid, inp, erow, drow, byts, z, k, res>>
 \* the produced text is handed to the decoder
 EncToDec == /\ pc = "encoded" /\ pc' = "dlookup"
@@ -133,18 +164,22 @@ DecLookup == /\ pc = "dlookup"
              /\ LET M == {i \in RowIds : Len(str) = ELen(i) /\ IsPrefix(HP(i), str)} IN
                 IF M = {}
                 THEN Finish(<<"rej", "nomatch">>) /\ UNCHANGED <<drow, num, z, k, byts>>
+                ELSE IF ~AllDigits(str)
+                THEN Finish(<<"rej", "badchar">>) /\ UNCHANGED <<drow, num, z, k, byts>>
                 ELSE /\ drow' = CHOOSE i \in M : \A j \in M : i <= j
-                     /\ num' = <<>> /\ z' = 0 /\ k' = 1 /\ byts' = <<>> /\ pc' = "dmul" /\ UNCHANGED res
+                     /\ num' = <<>> /\ z' = LeadCount(str, One) /\ k' = LeadCount(str, One) + 1
+                     /\ byts' = <<>> /\ pc' = "dmul" /\ UNCHANGED res
              /\ UNCHANGED <<cid, inp, erow, str>>
+\* k = position of the next unread character; chunks are aligned to the end of the text
 DecMul == /\ pc = "dmul"
           /\ IF k > Len(str)
-             THEN /\ byts' = Fill(z, 0) \o RevS(num) /\ pc' = "dcheck" /\ UNCHANGED <<num, z, k, res>>
-             ELSE LET d == DigitOf(str[k]) IN
-                  IF d < 0 THEN Finish(<<"rej", "badchar">>) /\ UNCHANGED <<num, z, k, byts>>
-                  ELSE /\ IF num = <<>> /\ d = 0 THEN z' = z + 1 /\ UNCHANGED num
-                          ELSE num' = MAdd(MMulSmall(num, 58), MFromNat(d)) /\ UNCHANGED z
-                       /\ k' = k + 1 /\ UNCHANGED <<pc, res, byts>>
-          /\ UNCHANGED <<cid, inp, erow, drow, str>>
+             THEN /\ byts' = Fill(z, 0) \o RevS(num) /\ pc' = "dcheck" /\ UNCHANGED <<num, k>>
+             ELSE LET left == Len(str) - k + 1
+                      n == IF left % 3 = 0 THEN 3 ELSE left % 3
+                      ds == [j \in 1..n |-> DigitOf(str[k + j - 1])] IN
+                  /\ num' = MAdd(MMulSmall(num, Pow58(n)), MFromNat(Val(ds)))
+                  /\ k' = k + n /\ UNCHANGED <<pc, byts>>
+          /\ UNCHANGED <<cid, inp, erow, drow, str, z, res>>
 DecCheck == /\ pc = "dcheck"
             /\ LET n == Len(BP(drow)) IN
                IF Len(byts) # n + PLen(drow) + 4 THEN Finish(<<"badlen", drow, byts>>)
@@ -156,31 +191,35 @@ Next == EncLookup \/ EncDiv \/ EncToDec \/ DecStart \/ DecLookup \/ DecMul \/ De
 Spec == Init /\ [][Next]_vars
 
 \* ---------------------------------------------------------------- C09
-\* the digit-by-digit machine computes the declarative conversion, and base 58 is invertible
-EncodeStepwise == pc = "encoded" => str = B58(byts)
-DecodeStepwise == pc = "dcheck" => UnB58(str) = <<TRUE, byts>>
-Base58Invertible == pc = "encoded" => UnB58(str) = <<TRUE, byts>>
+\* the machine computes the conversions as defined (digit-by-digit definition: on the lower end
+\* points always, on everything when Deep)
+UseDef == Deep \/ (cid = 0 /\ inp[3][1] = 0 /\ inp[4][1] = 0)
+EncodeStepwise == pc = "encoded" => /\ cid = 0 => str = B58F(byts)
+                                    /\ UseDef => str = B58(byts)
+DecodeStepwise == pc = "dcheck" => /\ cid = 0 => UnB58F(str) = <<TRUE, byts>>
+                                   /\ UseDef => UnB58(str) = <<TRUE, byts>>
+\* base 58 with the leading-zero rule is invertible: decoding what was encoded gives the bytes back
+Base58Invertible == pc = "dcheck" /\ inp[1] = "enc" => byts = BP(erow) \o inp[3] \o inp[4]
 \* every encoding of a consistent row has the documented human prefix and length
 \* (the monotonicity argument, checked on every class and every concrete payload)
 EncodedShape == pc = "encoded" /\ RowOK(erow) => Len(str) = ELen(erow) /\ IsPrefix(HP(erow), str)
 \* decoding an encoding returns the kind and the payload
 RoundTrip == pc = "done" /\ inp[1] = "enc" /\ erow # 0 /\ RowOK(erow) /\ TableOK =>
                res = <<"cand", erow, inp[3], BP(erow) \o inp[3], inp[4]>>
-\* a candidate is exactly an encoding of its row; at most one row matches a text
-IsEncodingOf(s, i) == LET u == UnB58(s) IN
-                      u[1] /\ Len(u[2]) = Len(BP(i)) + PLen(i) + 4 /\ IsPrefix(BP(i), u[2])
+\* a candidate is exactly an encoding of its row (re-encoding gives the text); at most one row matches a text
+BytesOfRow(u, i) == u[1] /\ Len(u[2]) = Len(BP(i)) + PLen(i) + 4 /\ IsPrefix(BP(i), u[2])
 AcceptedIsEncoding == pc = "done" /\ res[1] = "cand" =>
-                        /\ str = B58(res[4] \o res[5]) /\ IsPrefix(BP(res[2]), res[4]) /\ Len(res[3]) = PLen(res[2])
-                        /\ IsEncodingOf(str, res[2])
+                        /\ Len(res[3]) = PLen(res[2]) /\ Len(res[5]) = 4 /\ res[4] = BP(res[2]) \o res[3]
+                        /\ inp[1] = "dec" => str = B58F(res[4] \o res[5])
 Unambiguous == pc = "done" /\ TableOK =>
                  Cardinality({i \in RowIds : Len(str) = ELen(i) /\ IsPrefix(HP(i), str)}) <= 1
 \* what is not accepted is not the encoding of any payload of any consistent kind: finding the
-\* row by (length, human prefix) loses nothing against finding it by binary prefix
+\* row by (text length, human prefix) loses nothing against finding it by binary prefix
 RejectedIsNoEncoding == pc = "done" /\ res[1] \in {"rej", "badlen", "off"} /\ inp[1] = "dec" =>
-                          \A i \in RowIds : RowOK(i) => ~IsEncodingOf(str, i)
+                          LET u == UnB58F(str) IN \A i \in RowIds : RowOK(i) => ~BytesOfRow(u, i)
 
 \* ---------------------------------------------------------------- export for Leg B
 Emit == /\ (pc = "start" /\ cid = 0 /\ inp = AbsInput(1, CHOOSE c \in Classes : TRUE) =>
-              PrintT(<<"OUT", "table", [i \in RowIds |-> RowFacts[i]], Overlaps, EncDups, BadChars>>))
+              PrintT(<<"OUT", "table", RowFacts, Overlaps, EncDups, BadChars>>))
         /\ (pc = "done" /\ cid # 0 => PrintT(<<"OUT", "case", cid, erow, str, res>>))
 =============================================================================
